@@ -209,7 +209,13 @@ class _MaskedArrayFunc(object):
 
         # transform back to numpy array
         if np.ma.isMaskedArray(result):
-            result = result.filled(np.nan)
+            if self.__name__ in ('all', 'any'):
+                # nothing is left of an all-NaN slice once the NaNs are ignored: all() of nothing is True, any() is False
+                # (a boolean result filled with NaN would read True)
+                empty = self.__name__ == 'all'
+                result = np.bool_(empty) if result is np.ma.masked else result.filled(empty)
+            else:
+                result = result.filled(np.nan)
 
         return result
 
